@@ -2,6 +2,7 @@ package c06
 
 import (
 	"fmt"
+	"strings"
 
 	"pgregory.net/rapid"
 
@@ -98,6 +99,9 @@ func enumCore(ex exclusions, rec *ev.Rec, yield func(Case) bool) {
 							b := &builder{ch: fixedCh{&k}}
 							k = variant
 							ci := compInfo{idx: 1, file: "k1.vuego", elem: []string{"s", "m"}[variant%2], slots: map[string]slotInfo{}, order: set}
+							if variant%4 == 1 {
+								ci.file = shortNames[1]
+							}
 							var uses []useSpec
 							for _, name := range set {
 								si := slotInfo{}
@@ -114,7 +118,7 @@ func enumCore(ex exclusions, rec *ev.Rec, yield func(Case) bool) {
 								}
 								uses = append(uses, useSpec{name: set[0], place: other, fallback: fallback})
 							}
-							c := Case{Comps: map[string]Comp{}, Data: fixedData(variant), Compact: variant%3 == 0}
+							c := Case{Comps: map[string]Comp{}, Data: fixedData(variant), Compact: variant%3 == 0, Short: variant%4 == 1}
 							shape := []string{"div", "div", "flat", "template", "div"}[variant%5]
 							b.pageIfOnly = ex.tmplRoot && shape == "template"
 							c.Comps[ci.file] = b.leaf(ci, uses, variant%2 == 0, nil, shape)
@@ -208,10 +212,15 @@ func enumEdge(yield func(Case) bool) {
 
 var shapes = []string{"div", "div", "div", "flat", "template"}
 
-func genLeafInfo(t *rapid.T, idx int, elem string) (compInfo, []useSpec) {
+var shortNames = map[int]string{1: "components/KOne.vuego", 2: "components/KTwo.vuego", 3: "components/KThree.vuego"}
+
+func genLeafInfo(t *rapid.T, idx int, elem string, short bool) (compInfo, []useSpec) {
 	ci := compInfo{idx: idx, file: fmt.Sprintf("k%d.vuego", idx), elem: elem, slots: map[string]slotInfo{}, multi: map[string]bool{}}
 	if rapid.IntRange(0, 3).Draw(t, "dir") == 0 {
 		ci.file = fmt.Sprintf("parts/k%d.vuego", idx)
+	}
+	if short {
+		ci.file = shortNames[idx]
 	}
 	// subset of {default, a, b}; the empty set (component without slots) is rare
 	mask := rapid.SampledFrom([]int{1, 2, 3, 3, 5, 6, 6, 7, 7, 7, 0}).Draw(t, "slotset")
@@ -294,12 +303,13 @@ func genCase(t *rapid.T, ex exclusions, rec *ev.Rec) Case {
 		}
 	}()
 
-	k1, u1 := genLeafInfo(t, 1, elem)
+	c.Short = rapid.IntRange(0, 3).Draw(t, "short") == 0
+	k1, u1 := genLeafInfo(t, 1, elem, c.Short)
 	c.Comps[k1.file] = b.leaf(k1, u1, rapid.Bool().Draw(t, "fm1"), nil, sh[0])
 	avail := []compInfo{k1}
 	leaves := []compInfo{k1}
 	if hasK2 {
-		k2, u2 := genLeafInfo(t, 2, elem)
+		k2, u2 := genLeafInfo(t, 2, elem, c.Short)
 		c.Comps[k2.file] = b.leaf(k2, u2, rapid.Bool().Draw(t, "fm2"), nil, sh[1])
 		avail = append(avail, k2)
 		leaves = append(leaves, k2)
@@ -327,6 +337,12 @@ func genCase(t *rapid.T, ex exclusions, rec *ev.Rec) Case {
 				if done {
 					return nil
 				}
+				if ex.shortNested && c.Short {
+					// open known finding: a shorthand tag inside the content of a shorthand tag stays unresolved
+					done = true
+					rec.Excluded("C06-shorthand-tag-in-slot-content-not-resolved")
+					return nil
+				}
 				if ex.frozen && ci.multi[pl.name] {
 					// open known finding: an include tag inside content that fills a slot more than
 					// once keeps the prop values of the first use
@@ -334,7 +350,17 @@ func genCase(t *rapid.T, ex exclusions, rec *ev.Rec) Case {
 					return nil
 				}
 				done = true
-				o := incOpts{p: fmt.Sprintf("p%dn", i), scope: scope, varName: "sq", static: true,
+				// Inside a destructured supply the bare names item / n are includer variables. The
+				// nested component's slots bind props of the same names, and what unscoped content
+				// sees of those is not documented: keep the nested content off the colliding names.
+				var sc2 []sv
+				for _, e := range scope {
+					if pl.scope == "destr" && (e.x == "n" || e.x == "item" || strings.HasPrefix(e.x, "item.")) {
+						continue
+					}
+					sc2 = append(sc2, e)
+				}
+				o := incOpts{p: fmt.Sprintf("p%dn", i), scope: sc2, varName: "sq", static: true,
 					title: KV{K: inner.title(), V: fmt.Sprintf("N%d", i)}, num: "pn", rec: "prec"}
 				if inner.elem == "s" {
 					o.items = "plist"
@@ -414,7 +440,11 @@ func namedSupplies(nodes []Node, into map[string]bool) {
 // (forwarding what k3's includer supplied into the inner component).
 func genOuter(t *rapid.T, b *builder, c *Case, leaves []compInfo, elem, shape string, ex exclusions, rec *ev.Rec) compInfo {
 	inner := leaves[rapid.IntRange(0, len(leaves)-1).Draw(t, "outer-inner")]
-	k3 := compInfo{idx: 3, file: "k3.vuego", elem: elem, slots: map[string]slotInfo{}, multi: map[string]bool{}}
+	file3 := "k3.vuego"
+	if c.Short {
+		file3 = shortNames[3]
+	}
+	k3 := compInfo{idx: 3, file: file3, elem: elem, slots: map[string]slotInfo{}, multi: map[string]bool{}}
 	fm := rapid.Bool().Draw(t, "fm3")
 	propSets := [][]string{nil, {"item"}, {"item", "n"}}
 	// direct uses
